@@ -4,6 +4,8 @@ import (
 	"flag"
 	"fmt"
 	"os"
+	"runtime/debug"
+	"runtime/pprof"
 	"sort"
 	"strconv"
 	"strings"
@@ -29,6 +31,7 @@ func main() {
 		usage()
 	}
 	initTypes()
+	debug.SetGCPercent(800)
 	switch os.Args[1] {
 	case "run":
 		cmdRun(os.Args[2:])
@@ -60,7 +63,13 @@ func cmdRun(args []string) {
 	wit := fs.Int("wit", 0, "witness every k-th path")
 	verbose := fs.Bool("v", false, "")
 	maxk := fs.Int("maxperkey", 1, "")
+	prof := fs.String("cpuprofile", "", "")
 	fs.Parse(args)
+	if *prof != "" {
+		f, _ := os.Create(*prof)
+		pprof.StartCPUProfile(f)
+		defer pprof.StopCPUProfile()
+	}
 	t0 := time.Now()
 	P, err := loadProgram()
 	if err != nil {
